@@ -19,11 +19,13 @@ package main
 import (
 	"bytes"
 	"fmt"
+	"io"
 	"sort"
 	"strconv"
 	"strings"
 
 	"seehuhn.de/go/pdf"
+	"seehuhn.de/go/pdf/internal/debug/memfile"
 	"seehuhn.de/go/pdf/pagetree"
 	"seehuhn.de/go/pdf/verifharness/common"
 )
@@ -463,8 +465,9 @@ func pageStr(norm bool, id int, a [5]int) string {
 }
 
 type runner struct {
-	e  *common.Env
-	id int
+	e    *common.Env
+	id   int
+	ncfg int
 }
 
 func (t *runner) nextID() string {
@@ -531,8 +534,33 @@ func (t *runner) test(prog []op, old bool, class string) {
 		}
 	}
 
+	// the configuration a caller can be in: version, HumanReadable, seekable output or not,
+	// a content stream open on the same Writer while the pages are added (small documents:
+	// the page tree writes its nodes with WriteCompressed, which a Writer refuses inside a stream)
+	t.ncfg++
+	if !old {
+		v = []pdf.Version{pdf.V1_7, pdf.V1_4, pdf.V2_0}[t.ncfg%3]
+	}
+	human := (t.ncfg/2)%3 == 1
+	seekable := (t.ncfg/3)%2 == 0
+	openStream := nA <= 15 && t.ncfg%2 == 0
+	cfgName := fmt.Sprintf("version=%s human=%v seekable=%v stream-open=%v", v, human, seekable, openStream)
+	cs["config"] = cfgName
+	e.Dist[fmt.Sprintf("config:human=%v seekable=%v stream-open=%v", human, seekable, openStream)]++
+	e.Dist["config:version="+v.String()]++
+	var out io.Writer
 	buf := &bytes.Buffer{}
-	w, err := pdf.NewWriter(buf, v, nil)
+	mem := memfile.New()
+	if seekable {
+		out = mem
+	} else {
+		out = buf
+	}
+	var opt *pdf.WriterOptions
+	if human {
+		opt = &pdf.WriterOptions{HumanReadable: true}
+	}
+	w, err := pdf.NewWriter(out, v, opt)
 	if err != nil {
 		panic(err)
 	}
@@ -549,6 +577,17 @@ func (t *runner) test(prog []op, old bool, class string) {
 				perr = fmt.Sprint(r)
 			}
 		}()
+		var stm io.WriteCloser
+		if openStream {
+			var err error
+			stm, err = w.OpenStream(w.Alloc(), nil)
+			if err != nil {
+				panic(err)
+			}
+			if _, err := stm.Write([]byte("q Q\n")); err != nil {
+				panic(err)
+			}
+		}
 		for _, o := range prog {
 			if o.w >= len(writers) {
 				acc = append(acc, false)
@@ -583,6 +622,11 @@ func (t *runner) test(prog []op, old bool, class string) {
 					log[k] = n
 				})
 				acc = append(acc, true)
+			}
+		}
+		if stm != nil {
+			if err := stm.Close(); err != nil {
+				panic(err)
 			}
 		}
 		rootRef, closeErr = writers[0].Close()
@@ -630,7 +674,11 @@ func (t *runner) test(prog []op, old bool, class string) {
 		e.Line("impl.obs", "%s err", id)
 		return
 	}
-	rd, err := pdf.NewReader(bytes.NewReader(buf.Bytes()), int64(buf.Len()), nil)
+	data := buf.Bytes()
+	if seekable {
+		data = mem.Data
+	}
+	rd, err := pdf.NewReader(bytes.NewReader(data), int64(len(data)), nil)
 	if err != nil {
 		e.Fail("reopen-error", "the written file cannot be opened: "+err.Error(), cs)
 		e.Line("impl.obs", "%s err", id)
@@ -1024,6 +1072,7 @@ func main() {
 	e.Finish("programs of AppendPageDict/NewRange/Close/NextPageNumber on nested writers: all programs of <=3 (thorough 4) macro-operations "+
 		"{append 1|15|16|17 pages, new range, close, next-page-number} over <=3 writers, random programs with 1..1000 pages and 4095..5000 pages "+
 		"(bursts, ranges opened at arbitrary positions, closes in any order, operations on closed ranges), root-only documents around 16, 256, 4096; "+
+		"writer configurations: PDF 1.2/1.4/1.7/2.0, HumanReadable, seekable or not, a stream open on the same Writer while the pages are added (documents of <= 15 pages); "+
 		"attribute values from small sets in four palettes (uniform, two-valued, runs, mixed; absent values; explicit Rotate 0); PDF 1.2 (AA inheritable) and 1.7; "+
 		"non-trivial = more than one operation, distinct by program", nil)
 }
